@@ -38,6 +38,7 @@ import (
 	"context"
 	"errors"
 	"fmt"
+	"github.com/go-logr/logr"
 	"io"
 	"runtime"
 	rtrace "runtime/trace"
@@ -82,6 +83,10 @@ type Case struct {
 	// children (op racychild) to a goroutine of its own, which mutates and
 	// Ends the child while Tracer.Start may still be running.
 	StartShare bool `json:"start_share,omitempty"`
+	// ReLogger: the process-wide otel logger (all verbosity levels on) is a
+	// sink that calls back into the TracerProvider on every log line - a
+	// collaborator the SDK calls, like exporters and processors.
+	ReLogger bool `json:"re_logger,omitempty"`
 }
 
 func gen(t *rapid.T) Case {
@@ -94,6 +99,7 @@ func gen(t *rapid.T) Case {
 	if rapid.IntRange(0, 2).Draw(t, "rec_only_spans") == 0 {
 		c.RecOnly = rapid.IntRange(1, 1<<c.Spans-1).Draw(t, "rec_only")
 	}
+	c.ReLogger = rapid.IntRange(0, 3).Draw(t, "reentrant_logger") == 0
 	if c.StartShare = rapid.IntRange(0, 2).Draw(t, "start_share") == 0; c.StartShare {
 		kinds = append(kinds, "racychild", "racychild", "racychild")
 	}
@@ -128,13 +134,14 @@ func gen(t *rapid.T) Case {
 // ---------------------------------------------------------------------
 
 type snapCopy struct {
-	name     string
-	attrs    map[string]string
-	events   []string // rendered "name|k=v|k=v"
-	links    []string
-	status   string
-	end      time.Time
-	children int
+	name      string
+	attrs     map[string]string
+	attrOrder []string // the keys in the order the snapshot lists them
+	events    []string // rendered "name|k=v|k=v"
+	links     []string
+	status    string
+	end       time.Time
+	children  int
 }
 
 func render(kvs []attribute.KeyValue) string {
@@ -150,6 +157,7 @@ func copySnap(s sdktrace.ReadOnlySpan) snapCopy {
 	sc := snapCopy{name: s.Name(), attrs: map[string]string{}, end: s.EndTime(), children: s.ChildSpanCount()}
 	for _, kv := range s.Attributes() {
 		sc.attrs[string(kv.Key)] = kv.Value.Emit()
+		sc.attrOrder = append(sc.attrOrder, string(kv.Key))
 	}
 	for _, e := range s.Events() {
 		sc.events = append(sc.events, e.Name+"#"+render(e.Attributes))
@@ -183,6 +191,9 @@ func (a snapCopy) equal(b snapCopy) string {
 			return fmt.Sprintf("attribute %q %q -> %q", k, v, b.attrs[k])
 		}
 	}
+	if strings.Join(a.attrOrder, "\x00") != strings.Join(b.attrOrder, "\x00") {
+		return fmt.Sprintf("attribute order %q -> %q", a.attrOrder, b.attrOrder)
+	}
 	if strings.Join(a.events, ";") != strings.Join(b.events, ";") {
 		return fmt.Sprintf("events %v -> %v", a.events, b.events)
 	}
@@ -202,9 +213,42 @@ type recProcessor struct {
 	clock *vk.Clock
 	mu    sync.Mutex
 	ends  map[trace.SpanID][]delivery
+	live  []sdktrace.ReadWriteSpan // every span seen in OnStart (kept: a processor may look at it later)
 }
 
-func (p *recProcessor) OnStart(context.Context, sdktrace.ReadWriteSpan) {}
+func (p *recProcessor) OnStart(_ context.Context, s sdktrace.ReadWriteSpan) {
+	p.mu.Lock()
+	p.live = append(p.live, s)
+	p.mu.Unlock()
+}
+
+// inspect reads every span the processor was given in OnStart through all
+// its getters (as a processor that kept the span may do at any time, also
+// after End): reading must not change what was exported.
+func (p *recProcessor) inspect() {
+	p.mu.Lock()
+	live := append([]sdktrace.ReadWriteSpan{}, p.live...)
+	p.mu.Unlock()
+	for _, s := range live {
+		_ = s.Name()
+		_ = s.Attributes()
+		_ = s.Events()
+		_ = s.Links()
+		_ = s.Status()
+		_ = s.EndTime()
+		_ = s.StartTime()
+		_ = s.DroppedAttributes()
+		_ = s.DroppedEvents()
+		_ = s.DroppedLinks()
+		_ = s.ChildSpanCount()
+		_ = s.Parent()
+		_ = s.SpanKind()
+		_ = s.Resource()
+		_ = s.InstrumentationScope()
+		_ = s.IsRecording()
+		_ = s.SpanContext()
+	}
+}
 func (p *recProcessor) OnEnd(s sdktrace.ReadOnlySpan) {
 	d := delivery{at: p.clock.Tick(), snap: copySnap(s), ro: s}
 	p.mu.Lock()
@@ -222,6 +266,29 @@ type opRec struct {
 	recAfter   bool         // IsRecording() observed right after the op (end ops)
 	child      trace.SpanID // child / racychild: the span the op started
 }
+
+// reSink is a logr sink with every level enabled that uses the provider on
+// each line it is given: obtains a tracer for a scope of its own (new on the
+// first line, cached afterwards) and takes its own lock, as a real sink does.
+type reSink struct {
+	tp *sdktrace.TracerProvider
+	mu sync.Mutex
+	n  int
+}
+
+func (s *reSink) Init(logr.RuntimeInfo) {}
+func (s *reSink) Enabled(int) bool      { return true }
+func (s *reSink) touch() {
+	s.mu.Lock()
+	s.n++
+	n := s.n
+	s.mu.Unlock()
+	_ = s.tp.Tracer(fmt.Sprintf("from.logger.%d", n%3))
+}
+func (s *reSink) Info(int, string, ...any)       { s.touch() }
+func (s *reSink) Error(error, string, ...any)    { s.touch() }
+func (s *reSink) WithValues(...any) logr.LogSink { return s }
+func (s *reSink) WithName(string) logr.LogSink   { return s }
 
 // panicErr is an error whose Error method dereferences its nil receiver.
 type panicErr struct{ msg string }
@@ -320,6 +387,11 @@ func runOnce(c Case) ([]vk.Violation, map[string]bool) {
 	}
 	tp := sdktrace.NewTracerProvider(opts...)
 	tr := tp.Tracer("c10")
+	if c.ReLogger {
+		otel.SetLogger(logr.New(&reSink{tp: tp}))
+		defer otel.SetLogger(logr.Discard())
+		classes["logger_calls_back_into_the_provider"] = true
+	}
 	// a second provider in the same process: children started through its
 	// tracer have the shared span as parent all the same (and are delivered to
 	// ITS processor, not to the first provider's)
@@ -440,6 +512,11 @@ func runOnce(c Case) ([]vk.Violation, map[string]bool) {
 		}
 	})
 	_ = tp.Shutdown(context.Background())
+	// processors that kept the spans they saw in OnStart look at them now
+	for _, p := range procs {
+		p.inspect()
+	}
+	proc2.inspect()
 
 	// ---- oracle ----
 	const never = int64(1) << 62
